@@ -328,6 +328,7 @@ PROPS["C04"] = {
     "title": "The attack loop obeys its pacer and its duration",
     "units": [{"name": "virtual", "pkg": "libsync", "go": "go1.26.8", "run": "^TestC04", "scale_thorough": 12},
               {"name": "realclock", "pkg": "lib", "run": "^TestC04(Forever|TinyDuration)", "shards_quick": 2, "shards_thorough": 8},
+              {"name": "stopwait", "pkg": "libsync", "go": "go1.26.8", "run": "^TestC02(Random|TwoAttacks)", "env": {"VERIF_AS": "C04"}, "shards_quick": 2, "shards_thorough": 8},
               {"name": "cli", "pkg": "main", "run": "^TestC04", "shards_quick": 2, "shards_thorough": 8}],
     "rule": "rapid draws adversarial scripted pacers (1..120 answers: negative, zero, ns, ms, seconds..minutes, around and "
             "beyond the duration; then stop), durations (none or 1 ns..10 min), (workers, max-workers) in 0..8 x 1..8, "
